@@ -160,7 +160,204 @@ func startLine(d *taskDef) string {
 	return fmt.Sprintf("start %s %s %s", kit.Esc(d.id), dbrpsTok(d.dbrps), fromsTok(d.froms))
 }
 
+// genLoopCase: histories with kapacitorLoopback() nodes. Levels keep the loops acyclic: external pairs (d1/d2) are level 0,
+// lo1.lr level 1, lo2.lr level 2; a task only loops into a level above every pair it declares. t1 is fed by external writers and
+// writes back into lo1 (or lo2), t2 declares lo1.lr (sometimes an external pair too: its sinks see both sources interleaved) and
+// may write back into lo2, t3 declares lo2.lr and/or lo1.lr, t4 is a task that loops into its own pair (refused) or an ordinary
+// one; a batch task's loopback node (bloop) writes into lo1 / lo2 as well. Calls stay small (the C07 finding
+// loopback-stop-deadlock needs a full write_points edge).
+func genLoopCase(r *kit.Rand, idx int) []string {
+	var ops []string
+	defRP := kit.Pick(r, []string{"autogen", "autogen", "r2", ""})
+	ops = append(ops, fmt.Sprintf("cfg %s api", kit.Esc(defRP)))
+	names := genNames[:r.Range(2, 3)]
+	wnames := append(append([]string{}, names...), "other")
+	lo := [][2]string{{"lo1", "lr"}, {"lo2", "lr"}}
+	var pid int64
+	mkLoop := func(level int, lb string) loopDef {
+		l := loopDef{db: lo[level-1][0], rp: lo[level-1][1], tags: [][2]string{{"lb", lb}}}
+		switch r.Intn(4) {
+		case 0:
+			l.name = "looped"
+		case 1:
+			l.name = kit.Pick(r, names)
+		}
+		if r.Chance(1, 3) {
+			l.tags = [][2]string{{"dc", "z"}, {"lb", lb}} // dc: a tag half of the points carry
+		}
+		if r.Chance(1, 5) {
+			l.tags = append(l.tags, [2]string{"zone", "e u"})
+		}
+		return l
+	}
+	genDef := func(id string) *taskDef {
+		var d *taskDef
+		switch id {
+		case "t1":
+			d = genTask(r, id, names, false)
+			if len(d.dbrps) == 0 || d.dbrps[0][1] == "" {
+				d.dbrps = [][2]string{{"d1", "autogen"}}
+			}
+			if r.Chance(1, 2) {
+				d.dbrps = [][2]string{{"d1", "autogen"}} // the pair most writes go to
+			}
+			if len(d.froms) == 0 {
+				d.froms = []fromDef{{wh: -1, parent: -1}}
+			}
+			i := r.Intn(len(d.froms))
+			d.froms[i].loops = append(d.froms[i].loops, mkLoop(1+r.Intn(5)/4, "1"))
+			if r.Chance(1, 4) {
+				j := r.Intn(len(d.froms))
+				d.froms[j].loops = append(d.froms[j].loops, mkLoop(r.Range(1, 2), "3"))
+			}
+			if r.Chance(1, 8) {
+				d.froms[i].loops = nil // sometimes restarted without its loopback node
+			}
+		case "t2":
+			d = &taskDef{id: id, dbrps: [][2]string{lo[0]}}
+			if r.Chance(1, 3) {
+				d.dbrps = append(d.dbrps, [2]string{"d1", "autogen"})
+			}
+			switch r.Intn(4) {
+			case 0:
+				d.froms = []fromDef{{wh: -1, parent: -1}}
+			case 1:
+				d.froms = []fromDef{{name: kit.Pick(r, append([]string{"looped"}, names...)), wh: -1, parent: -1}, {wh: -1, parent: -1}}
+			case 2:
+				d.froms = []fromDef{{wh: r.Intn(len(preds)), parent: -1, opts: kit.Pick(r, []string{"", "t", "g", "ar"})}}
+			default:
+				d.froms = []fromDef{{name: "looped", wh: -1, parent: -1}, {db: "lo1", wh: -1, parent: -1}}
+			}
+			if r.Chance(1, 2) {
+				i := r.Intn(len(d.froms))
+				d.froms[i].loops = append(d.froms[i].loops, mkLoop(2, "2"))
+			}
+		case "t3":
+			d = &taskDef{id: id, dbrps: [][2]string{lo[1]}}
+			if r.Chance(1, 2) {
+				d.dbrps = append(d.dbrps, lo[0])
+			}
+			if r.Chance(1, 4) {
+				d.dbrps = append(d.dbrps, [2]string{kit.Pick(r, genDBs), "autogen"})
+			}
+			d.froms = []fromDef{{wh: -1, parent: -1}}
+			if r.Chance(1, 3) {
+				d.froms = append(d.froms, fromDef{name: kit.Pick(r, append([]string{"looped", "bat"}, names...)), wh: -1, parent: -1})
+			}
+		default:
+			d = genTask(r, id, names, false)
+			if r.Chance(1, 2) && len(d.dbrps) > 0 && d.dbrps[0][1] != "" && len(d.froms) > 0 {
+				// loops into one of its own pairs: "loop detected", StartTask refuses
+				x := d.dbrps[r.Intn(len(d.dbrps))]
+				if x[1] != "" {
+					d.froms[0].loops = []loopDef{{db: x[0], rp: x[1], tags: [][2]string{{"lb", "4"}}}}
+				}
+			}
+		}
+		return d
+	}
+	ids := []string{"t1", "t2", "t3", "t4"}[:r.Range(2, 4)]
+	running := map[string]bool{}
+	drained := false
+	doStart := func(id string) {
+		d := genDef(id)
+		ops = append(ops, startLine(d))
+		if len(d.dbrps) > 0 && !d.selfLoop() {
+			running[id] = true
+		}
+	}
+	pts := func(n int, nm []string) string {
+		var toks []string
+		for i := 0; i < n; i++ {
+			pid++
+			p := genPoint(r, pid, kit.Pick(r, nm))
+			p.pass = passOf(p)
+			toks = append(toks, pointTok(p))
+		}
+		return strings.Join(toks, ",")
+	}
+	doWrite := func() {
+		db, rp := "d1", kit.Pick(r, []string{"autogen", "autogen", ""})
+		switch r.Intn(10) {
+		case 0:
+			db = "d2"
+		case 1:
+			rp = "r2"
+		case 2:
+			db, rp = kit.Pick(r, []string{"lo1", "lo2"}), "lr" // an external writer into a loop target
+		}
+		n := r.Range(1, 6)
+		if r.Chance(1, 8) {
+			n = r.Range(10, 40)
+		}
+		verb := "write"
+		if drained {
+			verb = "swrite"
+			if rp == "" {
+				rp = "autogen"
+			}
+		}
+		ops = append(ops, fmt.Sprintf("%s %s %s %s", verb, kit.Esc(db), kit.Esc(rp), pts(n, wnames)))
+	}
+	doBatch := func() {
+		l := mkLoop(r.Range(1, 2), "7")
+		ops = append(ops, fmt.Sprintf("bloop b1 %s %s %s", loopTok(&l), kit.Pick(r, []string{"bat", "cpu", "looped"}), pts(r.Range(1, 4), []string{"m"})))
+	}
+	doStart("t1")
+	doStart("t2")
+	for _, id := range ids[2:] {
+		if r.Chance(2, 3) {
+			doStart(id)
+		}
+	}
+	nOps := r.Range(8, 30)
+	drainAt := -1
+	if r.Chance(1, 5) {
+		drainAt = nOps/2 + r.Intn(nOps/2)
+	}
+	for i := 0; i < nOps; i++ {
+		if i == drainAt {
+			ops = append(ops, "drain")
+			drained, running = true, map[string]bool{}
+			continue
+		}
+		switch k := r.Intn(100); {
+		case k < 55:
+			doWrite()
+		case k < 63:
+			doBatch()
+		case k < 80:
+			// the task store's update of an enabled task (changed dbrps / loops / from-nodes): StopTask + StartTask
+			id := kit.Pick(r, ids)
+			if running[id] {
+				ops = append(ops, "stop "+kit.Esc(id))
+				delete(running, id)
+				if r.Chance(1, 3) {
+					doWrite()
+				}
+			}
+			doStart(id)
+		case k < 92:
+			id := kit.Pick(r, ids)
+			ops = append(ops, kit.Pick(r, []string{"stop ", "stop ", "delete "})+kit.Esc(id))
+			delete(running, id)
+		default:
+			id := kit.Pick(r, ids)
+			if running[id] {
+				doStart(id) // live: refused
+			} else {
+				doWrite()
+			}
+		}
+	}
+	doWrite()
+	return ops
+}
+
 func genCase(r *kit.Rand, idx int, tier string) []string {
+	if tier != "racechild" && idx%4 == 1 {
+		return genLoopCase(r, idx)
+	}
 	var ops []string
 	defRP := kit.Pick(r, []string{"autogen", "autogen", "r2", ""})
 	mode := "api"
